@@ -1077,25 +1077,27 @@ def replay(inp):
 
 
 MANIFEST_ENTRY = {
-    'technique': 'Lean 4 proof (field algebra over translator-generated vector formulas, sqrt as a parameter) + '
-                 'differential ray tracing against the Lean Float model with an independent implicit-surface oracle',
-    'text': ('PARTIAL.  Machine-checked for every ray, normal and parameter (over any ordered field, sqrt entering through '
-             'sqrt(x)^2 = x, sqrt >= 0): reflect preserves length and mirrors about r for every non-zero (un-normalised) normal; '
-             'refract returns a unit vector, n\'(S\' x r) = n(S x r) (plane of incidence + n sin i = n\' sin i\') and S\'.r >= 0 for '
-             'every unit S and every NON-ZERO normal vector of any length below the critical angle, in particular for the '
-             'un-normalised gradient (-Fx,-Fy,1) that raytrace hands over (call site translated); the frame changes are inverse '
-             'rigid motions when R^T R = I, and make_rotation_matrix is orthogonal for all angles; the conic sag satisfies the '
-             'conic equation and (-Fx,-Fy,1) is parallel to the gradient of the implicit equation (true normal), also for the '
-             'off-axis conic closure; the polar->Cartesian gradient never divides by zero and equals the Cartesian gradient at '
-             'every point, the vertex included; over the reals conic_sag_der is the derivative (HasDerivAt) of conic_sag; the public '
-             'polar off-axis functions equal the parent conic at shifted coordinates and their (d/dr, d/dt) are the chain-rule images '
-             'of its Cartesian gradient; intersect starts on the vertex plane; Newton post-condition |F| < eps|F\'| when '
-             'the loop stops.  All of these are stated over definitions regenerated from the current source each run.  '
-             'Modelled-and-compared only: the whole trace (Newton iteration, per-ray convergence masking, multi-surface '
-             'threading of the index), on seeded prescriptions with an independent oracle.'),
-    'note': ('NOT proved: convergence of Newton-Raphson (only its post-condition), floating-point error, the batch masking '
-             'bookkeeping; Q-type surfaces are not modelled in Lean (no Surface constructor exists for them): they are traced on the '
-             'real code only and checked against the Richardson gradient of their own sag at 1e-7; '
-             'refraction of rays that travel against the surface normal.  Trusted: Lean kernel + standard axioms, the ast->Lean '
-             'translator for the vector-expression subset (validated by running model vs code), NumPy primitives.'),
+    'technique': 'Lean 4 proof (field algebra over translator-generated vector formulas, sqrt / copysign as parameters with laws) + '
+                 'differential ray tracing against the Lean Float model with independent implicit-surface / numerical-gradient oracles',
+    'text': ('PARTIAL.  PROPERTY THEOREMS (every ray, normal, parameter; any ordered field; sqrt via sqrt(x)^2 = x, sqrt >= 0, copysign via '
+             'its definition): reflect preserves length and mirrors about r for every non-zero (un-normalised) normal; refract returns a '
+             'unit vector, n\'(S\' x r) = n(S x r) (plane of incidence + n sin i = n\' sin i\') and S\'.r has the sign of S.r (the '
+             'refracted ray continues through the surface, also when it travels against the normal) for every unit S and every NON-ZERO '
+             'normal of any length below the critical angle, in particular for the un-normalised gradient raytrace hands over; frame '
+             'changes are inverse rigid motions when R^T R = I and make_rotation_matrix is orthogonal for all angles; the conic sag '
+             'satisfies the conic equation and (-Fx,-Fy,1) is parallel to the gradient of the implicit equation (true normal), also for '
+             'the off-axis closure; over the reals conic_sag_der is the derivative (HasDerivAt) of conic_sag; the polar->Cartesian '
+             'gradient never divides by zero and equals the Cartesian gradient on the whole surface, vertex included; the public polar '
+             'off-axis functions are the chain-rule images of the parent conic at shifted coordinates; intersect starts on the vertex '
+             'plane; Newton post-condition |F| < eps|F\'| IF the loop stops.  TRANSLATION IDENTITIES (generated = model, syntactic or '
+             'ring-normalised; AST facts; no content of their own): the 12 gen_* theorems and gen_structure.  COMPARED ON THE REAL CODE: '
+             'the whole trace (Newton iteration, masking, index threading through n=None surfaces inside glass, batch and single-ray '
+             'call forms, every spelling of typ and of P) against the Lean Float model and an independent implicit-surface oracle '
+             '(on-surface residual 2e-12, unit length, mirror law, Snell with the true indices, continuation through the surface, rays '
+             'against the normal, 50%..99.9% of the critical angle at sloped points); off_axis_conic_sag/der against model and numerical '
+             'derivatives; Q-type surfaces (Q2d_and_der) traced and checked against the numerical gradient of their own sag.'),
+    'note': ('NOT proved: convergence of Newton-Raphson (only its post-condition, exact arithmetic), floating-point error, the batch '
+             'masking bookkeeping, that hypot/arctan2 deliver a (cos, sin) pair, any whole-trace composition lemma; Q-type surfaces are '
+             'not modelled in Lean (real code vs numerical gradient at 1e-7 only); eps / maxiter are not translated (a loosened stopping '
+             'rule is seen through the 2e-12 on-surface residual).  Too few executed cases in any stream is a tool error (floors).'),
 }
